@@ -265,6 +265,23 @@ def build(tier="quick", seed=0):
         pack.add(Obligation(name, lambda tier, name=name, spec_=spec_, sval=sval, want=want: prove_paths(name, th_text_concrete(spec_, sval), lambda p: (p.value[0] == want and p.value[1] >= 2, f"text output {p.value[0]!r}, expected {want!r}")),
                             replay=lambda w, spec_=spec_, sval=sval: {"call": "c20_text", "args": {"format_spec": spec_, "s": sval}}, functions=FU, mode="representative templates and values (escape sequences in the template vs. in values, unknown names, format specs, undecodable bytes)"))
 
+    # a grouped record: its printable representation names the group and shows every member in full; a template sees the flat view (first member wins)
+    def th_text_grouped(format_spec):
+        def th():
+            fp = AbsFile(it, mode="wb")
+            A = it.call(RD, ["c20/a", [("varint", "n"), ("string", "s")]], {})
+            B = it.call(RD, ["c20/b", [("string", "s"), ("varint", "k")]], {})
+            g = it.call(base.g["GroupedRecord"], ["c20/grp", [it.call(A, [], {"n": 42, "s": "one", "_generated": GEN}), it.call(B, [], {"s": "two", "k": 7, "_generated": GEN})]], {})
+            w = it.call(tx.g["TextWriter"], [fp], {} if format_spec is None else {"format_spec": format_spec})
+            it.call(it.getattr_(w, "write"), [g], {})
+            return fp.content()
+        return th
+
+    for spec_, want in ((None, [b"<c20/grp [<c20/a n=42 s='one'>, <c20/b s='two' k=7>]>\n"]), ("{n}/{s}/{k}/{_version}", [b"42/one/7/1\n"])):
+        name = f"C20.text[grouped record, template {spec_!r}]"
+        pack.add(Obligation(name, lambda tier, name=name, spec_=spec_, want=want: prove_paths(name, th_text_grouped(spec_), lambda p: (p.value == want, f"text output {p.value!r}, expected {want!r}")),
+                            replay=lambda w, spec_=spec_, want=want: {"call": "c20_text_grouped", "args": {"format_spec": spec_, "want": want[0].decode()}}, functions=FU + ("flow.record.base:GroupedRecord.__repr__",), mode="one grouped record of two members that share a field name"))
+
     # a template with format specs applied to a record whose fields are unset: the writer does not fail; what is set is rendered as the template says
     UNSET_CASES = [("{s:>6}|{n:05d}|{n}", {"n": 42}, rb"\s*\S*\|00042\|42\n"), ("{s:>6}|{n:05d}|{n}", {}, rb"[^|]*\|[^|]*\|[^|]*\n"), ("{n:x}-{s:^7}-{_source:>3}", {"s": "mid"}, rb"[^-]*-  mid  -[^-]*\n"), ("{s!r:>8}.{n:>4}", {}, rb"[^.]*\.[^.]*\n")]
     for spec_, setv, rx in UNSET_CASES:
